@@ -86,3 +86,45 @@ func VerifPaginateParams() {
 	vnd.Cover(err == nil && perStr != "", "explicit itemsPerPage accepted")
 	vnd.Cover(err != nil, "rejection reachable")
 }
+
+// VerifPaginateHugeParams: parameters around and far beyond 2^31 (the largest accepted value is
+// 2147483647): eight digits fixed and two arbitrary ones around the boundary, or one of five huge numbers up
+// to 2^64. Values of 2^31 or more are rejected — so the products in the slicing arithmetic cannot wrap —
+// and whatever is accepted yields a page inside the list; never a panic.
+func VerifPaginateHugeParams() {
+	n := 6
+	items := verifItems(n)
+	huge := func(name string) (string, bool) { // the parameter and whether it is below 2^31
+		k := vnd.Choose(name, 6)
+		if k == 0 {
+			d := vnd.String(name+"LastDigits", 2)
+			vnd.Assume(d[0] >= '0' && d[0] <= '9' && d[1] >= '0' && d[1] <= '9')
+			return "21474836" + d, d[0] < '4' || (d[0] == '4' && d[1] <= '7')
+		}
+		return []string{"4294967296", "6148914691236517206", "4611686018427387904", "9223372036854775807", "18446744073709551616"}[k-1], false
+	}
+	var perStr, pageStr string
+	var valid bool
+	if vnd.Bool("hugeItemsPerPage") {
+		perStr, valid = huge("itemsPerPage")
+		pageStr = []string{"", "0", "1", "4294967296"}[vnd.Choose("page", 4)]
+		valid = valid && pageStr != "4294967296"
+	} else {
+		perStr = []string{"", "1", "3", "4294967296"}[vnd.Choose("itemsPerPage", 4)]
+		pageStr, valid = huge("page")
+		valid = valid && perStr != "4294967296"
+	}
+	var pc int
+	var err error
+	panicked := vnd.Panics(func() { pc, err = paginate(&items, perStr, pageStr) })
+	vnd.Assert(!panicked, "no parameter makes pagination panic")
+	vnd.Assert((err == nil) == valid, "parameters of 2^31 or more are rejected, smaller ones accepted")
+	if err == nil {
+		vnd.Assert(len(items) <= n && pc >= 1, "a served page is part of the list")
+		if len(pageStr) >= 10 {
+			vnd.Assert(len(items) == 0, "pages past the end are empty")
+		}
+	}
+	vnd.Cover(err != nil, "huge parameter rejected")
+	vnd.Cover(err == nil && len(pageStr) >= 10, "largest accepted page index")
+}
